@@ -45,12 +45,18 @@ def locate_one(values, val, issorted=False, tol=None, side='left'):
         val = _maybe_convert_datetime64(val)
 
     if tol is not None:
+        if values.size == 0:
+            raise IndexError("Did not find element `{}` in the axis with `tol={}` (empty axis)".format(repr(val), repr(tol)))
         try:
-            dist = np.abs(values - val)
+            if values.dtype.kind in 'iu':
+                # distances in floating point: integer labels would wrap around
+                dist = np.abs(values.astype(float) - val)
+            else:
+                dist = np.abs(values - val)
             match = np.argmin(dist)
         except TypeError as error:
             raise TypeError("`tol` parameter only valid for numeric axes")
-        if dist[match] > tol:
+        if not dist[match] <= tol: # also true for a nan distance
             raise IndexError("Did not find element `{}` in the axis with `tol={}`".format(repr(val), repr(tol)))
 
     elif issorted:
